@@ -182,6 +182,59 @@ def check_tensor(acc, x, dt, mode, layout, col_m, extract_diagonal=False,
               if x.ndim > 1 else x[:4].tolist()})
 
 
+def run_sharded_declared(acc):
+  """Sharded optimizer with quantized momentum: the layout declared for
+  allocation/restore (shape_and_dtype_fn) must be the layout of the live
+  quantized state - in particular one bucket per column, x.shape[1:], for
+  parameters of every rank."""
+  import jax
+  import jax.numpy as jnp
+  from jax.sharding import Mesh
+  from mc import ds
+  for shapes in ({"t": [3, 5, 2], "m": [4, 3]}, {"q": [2, 3, 2, 2], "v": [3]},
+                 {"u": [3, 1, 4]}):
+    acc.states += 1
+    acc.nontrivial += 1
+    acc.transitions += 1
+    case = {"shapes": shapes}
+    sig = "C11|sharded_declared|%s" % (sorted(shapes.items()),)
+    runner = ds.Runner({"best_effort_memory_usage_reduction": True,
+                        "best_effort_shape_interpretation": False}, shapes,
+                       "sharded")
+    with Mesh(np.array(jax.devices()[:1]), ("x",)):
+      state = runner.init()
+    sd = runner.init_fns.shape_and_dtype_fn(runner.params)
+    is_sd = lambda x: isinstance(x, list) and len(x) == 2 and \
+        isinstance(x[0], (list, tuple)) and not isinstance(x[1], list)
+    a = jax.tree_util.tree_leaves(state)
+    b = jax.tree_util.tree_leaves(sd, is_leaf=is_sd)
+    bad = None
+    if len(a) != len(b):
+      bad = "%d live leaves, %d declared" % (len(a), len(b))
+    else:
+      for i, (x, y) in enumerate(zip(a, b)):
+        if tuple(x.shape) != tuple(y[0]) or jnp.dtype(x.dtype) != \
+            jnp.dtype(y[1]):
+          bad = "leaf %d is %s %s, declared %s %s" % (
+              i, tuple(x.shape), x.dtype, tuple(y[0]), jnp.dtype(y[1]))
+          break
+    from precondition.quantization_utils import QuantizedValue
+    is_q = lambda x: isinstance(x, QuantizedValue)
+    for q in jax.tree_util.tree_leaves(state, is_leaf=is_q):
+      if is_q(q) and q.quantized_dtype == jnp.int8 and \
+          hasattr(q.quantized, "shape") and \
+          tuple(q.bucket_size.shape) != tuple(q.quantized.shape[1:]):
+        bad = "live int8 momentum of shape %s has bucket sizes %s" % (
+            tuple(q.quantized.shape), tuple(q.bucket_size.shape))
+    if bad:
+      acc.outcome("viol_sharded_declared_layout")
+      acc.violation(sig, "sharded quantized state and its declared layout "
+                    "disagree: " + bad, case,
+                    kf={"input_class": "regular", "kind": "ds_carry"})
+    else:
+      acc.outcome("sharded_declared_layout_ok")
+
+
 def run_ds_carry(acc, task):
   """distributed_shampoo with quantized state, all histories over {gA,gB}:
   every stored QuantizedValue is a fixed point of dequantize -> quantize
@@ -195,11 +248,21 @@ def run_ds_carry(acc, task):
   from precondition.quantization_utils import QuantizedValue
   P = task["P"]
   shapes = {"v": [3], "m": [4, 6]}
+  b2 = 1.0 if P == 3 else 0.999
   cfg = {"best_effort_memory_usage_reduction": True, "beta1": 0.9,
          "preconditioning_compute_steps": P, "start_preconditioning_step": 1,
-         "graft_type": 3}
+         "graft_type": 3, "beta2": b2,
+         "best_effort_shape_interpretation": False}
   runner = ds.Runner(cfg, shapes, "pmap")
-  alpha = ds.grad_trees(shapes, ["gA", "gB"], (0, 4))
+  # gD: half of the rows scaled by 2^-14, so the columns of a statistic get
+  # buckets of very different size; g0 with beta2 = 1 leaves the statistics
+  # where they are
+  events = ["gA", "gB", "gD", "g0"]
+  alpha = ds.grad_trees(shapes, events, (0, 4))
+  from mc.ref import shampoo as ref
+  full = dict(ref.BASE, **cfg)
+  leaves = {n: ref.Leaf(full, shapes[n], runner.params_np[n])
+            for n in shapes}
   is_q = lambda x: isinstance(x, QuantizedValue)
 
   def quantized_leaves(state):
@@ -217,12 +280,55 @@ def run_ds_carry(acc, task):
   for _ in range(task["depth"]):
     nxt = []
     for s, hist in frontier:
-      for ev in ("gA", "gB"):
+      for ev in events:
         _, s2 = runner.step(s, alpha[ev])
         h2 = hist + (ev,)
         t = len(hist)
         acc.transitions += 1
         qs1 = dict(quantized_leaves(s))
+        # the stored statistic is the quantization of
+        # w1 * dequantize(previous) + w2 * G G^T: per column within half a
+        # bucket of it (diagonal exact to float32)
+        for n in shapes:
+          lf = leaves[n].copy()
+          old_st = runner.leaf_stats(s, n)["statistics"]
+          new_st = runner.leaf_stats(s2, n)
+          lf.stats = [np.asarray(x, np.float64) for x in old_st]
+          lf.update_stats(alpha[ev][n].astype(np.float64))
+          for k_, (want, got, raw) in enumerate(zip(
+              lf.stats, new_st["statistics"], new_st["raw_statistics"])):
+            got = np.asarray(got, np.float64)
+            off = ~np.eye(want.shape[0], dtype=bool)
+            bucket = np.max(np.abs(want) * off, axis=0) / 32767.0
+            bound = bucket / 2 + 4 * ulp32(np.max(np.abs(want), axis=0))
+            acc.states += 1
+            bad = (np.abs(got - want) > bound[None, :] * 1.001) & off
+            case = {"history": list(h2), "leaf": n, "statistic": k_,
+                    "interval": P, "beta2": b2}
+            if bad.any():
+              j = int(np.where(bad.any(axis=0))[0][0])
+              acc.outcome("viol_statistics_not_within_half_bucket")
+              acc.violation(
+                  "C11|ds_carry|P%d|%s|%s|stat%d|eq" % (P, ",".join(h2), n,
+                                                       k_),
+                  "stored int16 statistic is more than half a bucket away "
+                  "from w1*dequantize(previous) + w2*G G^T in column %d: "
+                  "max |diff| %.3g, half bucket %.3g" %
+                  (j, float(np.max(np.abs(got - want)[:, j] * off[:, j])),
+                   float(bucket[j] / 2)), case,
+                  kf={"input_class": "regular", "kind": "ds_carry"})
+            else:
+              acc.outcome("statistics_within_half_bucket")
+            if ev == "g0" and b2 == 1.0 and t > 0:
+              prev_raw = runner.leaf_stats(s, n)["raw_statistics"][k_]
+              if not all(np.array_equal(a, b) for a, b in zip(prev_raw, raw)):
+                acc.outcome("viol_statistics_drift")
+                acc.violation(
+                    "C11|ds_carry|P%d|%s|%s|stat%d|drift" % (
+                        P, ",".join(h2), n, k_),
+                    "zero gradient with beta2 = 1: the stored quantized "
+                    "statistic changed", case,
+                    kf={"input_class": "regular", "kind": "ds_carry"})
         for name, q in quantized_leaves(s2):
           acc.states += 1
           acc.nontrivial += 1
@@ -317,6 +423,8 @@ def plan(tier, seed):
     tasks.append({"name": "ds_carry/P%d" % P, "kind": "ds_carry", "P": P,
                   "depth": 3 if tier == "quick" else 4, "part": "ds_carry",
                   "profile": {"x64": False}})
+  tasks.append({"name": "sharded_declared", "kind": "sharded_declared",
+                "part": "ds_carry", "profile": {"x64": False}})
   tasks.append({"name": "passthrough", "kind": "passthrough",
                 "part": "passthrough", "profile": {"x64": False}})
   return {
@@ -401,6 +509,8 @@ def run_task(task):
                      None, tag="m%r" % m)
   elif task["kind"] == "ds_carry":
     run_ds_carry(acc, task)
+  elif task["kind"] == "sharded_declared":
+    run_sharded_declared(acc)
   elif task["kind"] == "shapes":
     # every shape of rank 1..3 over dims {1,2,3} (unit axes in every
     # position), columns at scales 2^-20 .. 2^20 with sign changes and zeros
